@@ -561,7 +561,7 @@ func (c *Ctx) payloadCodecs() {
 	const R = "E12.payload-codec"
 	widths := func(f *ssa.Function, q string) []int64 {
 		var out []int64
-		for _, cl := range callsTo(f, modPath+"/boc.Cell."+q) {
+		for _, cl := range c.callsToDeep(f, modPath+"/boc.Cell."+q) {
 			k, _ := constInt(cl.Call.Args[len(cl.Call.Args)-1])
 			out = append(out, k)
 		}
@@ -572,14 +572,18 @@ func (c *Ctx) payloadCodecs() {
 		ww, rw := widths(w, "WriteUint"), widths(r, "ReadUint")
 		okW := fmt.Sprint(ww) == "[8]" && fmt.Sprint(rw) == "[8]"
 		okSrc := false
-		for _, cl := range callsTo(w, modPath+"/boc.Cell.WriteUint") {
+		// (the per-message step may sit in an unexported helper: its cell parameter is the target cell of the call)
+		isTarget := func(f *ssa.Function, v ssa.Value) bool {
+			return v == ssa.Value(f.Params[1]) || derivesFrom(v, func(x ssa.Value) bool { return x == ssa.Value(f.Params[1]) }, false)
+		}
+		for _, cl := range c.callsToDeep(w, modPath+"/boc.Cell.WriteUint") {
 			_, n, _ := fieldOfLoad(stripConv(cl.Call.Args[1]))
 			okSrc = n == "Mode"
 		}
 		okRef := false
-		for _, cl := range callsTo(w, modPath+"/boc.Cell.AddRef") {
+		for _, cl := range c.callsToDeep(w, modPath+"/boc.Cell.AddRef") {
 			_, n, _ := fieldOfLoad(cl.Call.Args[1])
-			okRef = n == "Message" && cl.Call.Args[0] == ssa.Value(w.Params[1])
+			okRef = n == "Message" && isTarget(w, cl.Call.Args[0])
 		}
 		okLit := false
 		for _, m := range literalFields(r, "RawMessage") {
@@ -707,8 +711,12 @@ func (c *Ctx) payloadCodecs() {
 		for _, b2 := range callsTo(w, modPath+"/boc.Cell.WriteBit") {
 			if v, ok := constBool(b2.Call.Args[1]); ok && !v {
 				for _, ft := range factsAt(w, b2.Block()) {
-					if bo, ok := ft.Cond.(*ssa.BinOp); ok && bo.Op == token.EQL && ft.Truth {
-						if k, ok := constInt(bo.Y); ok && k == 0 {
+					if bo, ok := ft.Cond.(*ssa.BinOp); ok {
+						// the fact says the length is zero: len == 0, len < 1, len <= 0, or the refused form of len > 0 / >= 1 / != 0
+						k, isK := constInt(bo.Y)
+						zero := isK && ((bo.Op == token.EQL && k == 0 && ft.Truth) || (bo.Op == token.LSS && k == 1 && ft.Truth) || (bo.Op == token.LEQ && k == 0 && ft.Truth) ||
+							(bo.Op == token.GTR && k == 0 && !ft.Truth) || (bo.Op == token.GEQ && k == 1 && !ft.Truth) || (bo.Op == token.NEQ && k == 0 && !ft.Truth))
+						if zero {
 							if cl := callOf(bo.X); cl != nil {
 								if bi, ok := cl.Call.Value.(*ssa.Builtin); ok && bi.Name() == "len" {
 									okEmpty = true
@@ -746,8 +754,13 @@ func (c *Ctx) sendLimitGuard(R string) {
 		if !ok {
 			return false
 		}
-		c2 := callOf(b.Y)
-		return c2 != nil && c2.Call.IsInvoke() && c2.Call.Method.Name() == "maxMessageNumber" && strings.Join(leaves(b.X), ",") == "#4" && b.Op.String() == ">"
+		// len(messages) > max, or the same test with the operands exchanged: max < len(messages)
+		x, y, op := b.X, b.Y, b.Op
+		if op == token.LSS {
+			x, y, op = y, x, token.GTR
+		}
+		c2 := callOf(y)
+		return c2 != nil && c2.Call.IsInvoke() && c2.Call.Method.Name() == "maxMessageNumber" && strings.Join(leaves(x), ",") == "#4" && op == token.GTR
 	}, kind: "notbool"})
 }
 
